@@ -1,6 +1,6 @@
 (* Props/C13.v — property C13: hash256 is a structural fingerprint, computed as real SHA-256.
    Statements only; proofs in Proofs/Sha256.v, Proofs/C13.v, Proofs/C13Bytes.v, Proofs/C13Inj.v. *)
-From Beff Require Import Model.Hash256Enc Model.Validate Proofs.Sha256 Proofs.C13 Proofs.C13Bytes Proofs.C13Inj.
+From Beff Require Import Model.Hash256Enc Model.Validate Proofs.Sha256 Proofs.C13 Proofs.C13Bytes Proofs.C13Inj Proofs.C15Term Proofs.C13Term.
 From Coq Require Import Sorting.Permutation.
 
 (* ---- the digest routine: for every sequence of writes (every chunking, every block boundary, both padding
@@ -159,6 +159,27 @@ Proof.
   - split; [|vm_compute; reflexivity]. eexists. split; vm_compute; reflexivity.
 Qed.
 
+(* ---- hash256() terminates on recursive types ----
+   A named type is marked active while it is hashed and a reference to an active name is written as a cycle id; the table of
+   active names comes back unchanged from every call (every tree, every state).  Hence, for every environment and tree of height
+   at most H (the height through the discriminator mapping as well), no fuel from (|env| + 1) * (H + 1) on is exhausted. *)
+Theorem C13_active_names_restored :
+  forall env f st r p, enc env f st r = Ok p -> fst (snd p) = fst st.
+Proof. exact enc_restores. Qed.
+
+Theorem C13_hash256_terminates_on_recursive_types :
+  forall env H fuel r,
+    forallb (fun e => Nat.leb (hte (snd e)) H) env = true -> hte r <= H ->
+    (List.length env + 1) * (H + 1) <= fuel ->
+    forall e, hash256_hex env fuel r = Throw e -> e <> EOutOfFuel.
+Proof. exact hash256_terminates. Qed.
+
+(* non-vacuity: the mutually recursive environment of the alias refutation above, at exactly the bound *)
+Example C13_termination_nonvacuous :
+  forallb (fun e => Nat.leb (hte (snd e)) 6) c13_env = true /\
+  exists h, hash256_hex c13_env ((List.length c13_env + 1) * (6 + 1)) (RRef "U") = Ok h.
+Proof. split; [vm_compute; reflexivity|eexists; vm_compute; reflexivity]. Qed.
+
 Print Assumptions C13_writer_is_sha256.
 Print Assumptions C13_hash256_is_sha256_of_encoding.
 Print Assumptions C13_property_order.
@@ -169,3 +190,6 @@ Print Assumptions C13_equal_streams_accept_the_same_values.
 Print Assumptions C13_disagreeing_validators_are_hashed_from_different_bytes.
 Print Assumptions C13_framing_is_a_prefix_code.
 Print Assumptions C13_injectivity_nonvacuous.
+Print Assumptions C13_active_names_restored.
+Print Assumptions C13_hash256_terminates_on_recursive_types.
+Print Assumptions C13_termination_nonvacuous.
